@@ -11,11 +11,18 @@ Tie (DESIGN.md §3 C07):
       `TypeAdapter`s over random annotations with instrumented parse / serialize functions, on
       conformant and corrupted values (validation) and on random instances (dump);
     * the call log of a whole request (`Model.ArgSend.send`) vs the log recorded in REAL packages;
+    * the scalar imports + emitted classes of the REAL `InputTypesGenerator.generate(types_to_include)` module
+      (both values of `include_all_inputs`, roots = the real ArgumentsGenerator's used inputs) vs
+      `Model.InputImports.generate`;
+    * a generated method / input class whose text does not fit the IR is a mismatch (and the method is still
+      called by the oracle through a loose reading of its text);
   oracle (the property itself): real packages with instrumented scalars (seven configuration
     families), real calls: every non-null response occurrence reaches user code as parse(raw), parse
     called once for it and never for null; every non-null argument occurrence is transmitted as
     serialize(value), called once for it and never for None / an omitted argument; type-only scalars
-    round-trip, unconfigured ones pass through; every module imports.
+    round-trip, unconfigured ones pass through; every module imports and binds the names its annotations / calls use
+    (result modules, input_types.py, client.py) under every include_all_inputs / include_all_enums combination.
+    Scalar VALUES include present-but-falsy ones (`TZ("")`, `TZ(0)`, `TZ([])`, `0`: families H, I, J) at every position.
 """
 from __future__ import annotations
 
@@ -42,6 +49,12 @@ FINGERPRINTS = [
     ("ariadne_codegen/client_generators/custom_arguments.py", "ArgumentGenerator._get_dict_value"),
     ("ariadne_codegen/client_generators/client.py", "ClientGenerator.generate"),
     ("ariadne_codegen/client_generators/input_types.py", "InputTypesGenerator.generate"),
+    ("ariadne_codegen/client_generators/input_types.py", "InputTypesGenerator.__init__"),
+    ("ariadne_codegen/client_generators/input_types.py", "InputTypesGenerator._save_dependencies"),
+    ("ariadne_codegen/client_generators/input_types.py", "InputTypesGenerator._filter_class_defs"),
+    ("ariadne_codegen/client_generators/input_types.py", "InputTypesGenerator._get_dependencies_of_type"),
+    ("ariadne_codegen/client_generators/package.py", "PackageGenerator._generate_input_types"),
+    ("ariadne_codegen/client_generators/arguments.py", "ArgumentsGenerator.generate"),
     ("ariadne_codegen/client_generators/result_types.py", "ResultTypesGenerator._add_enums_scalars_fragments_imports"),
     ("ariadne_codegen/config.py", "get_client_settings"),
 ]
@@ -367,6 +380,150 @@ def run_pydantic(ctx: Ctx, st: Optional[LeanStatus], res: Result) -> None:
 
 
 # --------------------------------------------------------------------------------------------
+# 2b. the scalar imports of the input-types module (AST level, before autoflake / isort)
+# --------------------------------------------------------------------------------------------
+
+FIXED_INPUT_IMPORTS = 4  # typing, pydantic, base_model, upload (InputTypesGenerator.__init__)
+
+
+def child_inputs_module(cases: List[Dict[str, Any]]) -> List[Dict[str, Any]]:
+    """REAL ArgumentsGenerator (-> used inputs) + REAL InputTypesGenerator.generate as package.py `_generate_input_types`
+    calls them, for include_all_inputs = True and False"""
+    import ast
+    import warnings
+
+    from graphql import build_schema, parse
+
+    out = []
+    for case in cases:
+        rec: Dict[str, Any] = {"variants": []}
+        out.append(rec)
+        schema = build_schema(case["sdl"])
+        doc = parse(case["queries"])
+        rec["ischema"] = argwire.ischema_json(schema)
+        try:
+            from ariadne_codegen.client_generators.arguments import ArgumentsGenerator
+            from ariadne_codegen.client_generators.input_types import InputTypesGenerator
+
+            scalars = c03._scalar_data(case)
+        except (ImportError, AttributeError, TypeError) as e:
+            rec["observer_error"] = f"{type(e).__name__}: {e}"
+            continue
+        for include_all in (True, False):
+            v: Dict[str, Any] = {"include_all_inputs": include_all}
+            rec["variants"].append(v)
+            try:
+                with warnings.catch_warnings():
+                    warnings.simplefilter("ignore")
+                    ag = ArgumentsGenerator(schema=schema, convert_to_snake_case=case["snake"], custom_scalars=scalars)
+                    for op in [d for d in doc.definitions if hasattr(d, "operation")]:
+                        ag.generate(op.variable_definitions)
+                    used = list(ag.get_used_inputs())
+                    itg = InputTypesGenerator(schema=schema, convert_to_snake_case=case["snake"], custom_scalars=scalars)
+                    module = itg.generate() if include_all else itg.generate(types_to_include=used)
+                imps = [n for n in module.body if isinstance(n, ast.ImportFrom)]
+                v["used_inputs"] = used
+                v["fixed"] = len(imps[:FIXED_INPUT_IMPORTS])
+                v["imports"] = [{"module": i.module, "names": [a.name for a in i.names]} for i in imps[FIXED_INPUT_IMPORTS:] if i.level == 0]
+                v["classes"] = [n.name for n in module.body if isinstance(n, ast.ClassDef)]
+                v["usedScalars"] = list(itg._used_scalars) if isinstance(getattr(itg, "_used_scalars", None), list) else None
+            except (AttributeError, TypeError) as e:
+                import traceback
+
+                tb = traceback.extract_tb(e.__traceback__)
+                if any("ariadne_codegen" in f.filename for f in tb[1:]):
+                    v["error"] = "internal:" + type(e).__name__
+                else:
+                    v["observer_error"] = f"{type(e).__name__}: {e}"
+            except BaseException as e:  # noqa: BLE001
+                v["error"] = type(e).__name__
+    return out
+
+
+def add_deep_chain(rng: random.Random, c: Dict[str, Any], attach_p: float, root_p: float) -> None:
+    """a chain of input types Deep0 -> Deep1 -> ... below the generated ones, each with a scalar leaf, so that custom
+    scalars sit at every distance from the inputs the operations name (reachable only through the dependency closure
+    when the chain is attached, unreachable otherwise)"""
+    if not c["scalars"] or not c["inputs"]:
+        return
+    names = ["Deep" + str(i) for i in range(rng.randint(1, 3))]
+    for i, nme in enumerate(names):
+        fields = [{"name": "leaf", "type": argwire._wrap(rng, argwire.named(rng.choice(list(c["scalars"]) * 2 + argwire.BUILTIN_SCALARS))), "default": None}]
+        if i + 1 < len(names):
+            fields.append({"name": "next", "type": argwire._wrap(rng, argwire.named(names[i + 1]), 1), "default": None})
+        c["inputs"][nme] = fields
+    hosts = [k for k in c["inputs"] if not k.startswith("Deep")]
+    if rng.random() < attach_p:
+        host = rng.choice(hosts)
+        c["inputs"][host].append({"name": "deep", "type": argwire.named(names[0]), "default": None})
+        if rng.random() < root_p and c["ops"] and not any(d["name"] == "input" for d in c["ops"][0]["defs"]):
+            c["ops"][0]["defs"].append({"name": "input", "type": argwire._wrap(rng, argwire.named(host), 1), "default": None})
+    argwire.finish_case(c)
+
+
+def inputs_module_cases(ctx: Ctx, n: int) -> List[Dict[str, Any]]:
+    rng = ctx.sub_rng("inputs-module")
+    cases = []
+    for _ in range(n):
+        c = argwire.gen_case(rng, trigger_names=0.0, harmless_names=0.1, want_results=False, n_ops=rng.randint(1, 2),
+                             families=rng.sample(ALL_FAMILIES, rng.randint(1, 4)))
+        if rng.random() < 0.6:
+            add_deep_chain(rng, c, attach_p=0.7, root_p=0.3)
+        cases.append(c)
+    return cases
+
+
+def run_inputs_module(ctx: Ctx, st: Optional[LeanStatus], res: Result) -> None:
+    cases = inputs_module_cases(ctx, ctx.budget(2000, 8000))
+    chunks = [cases[i:i + 100] for i in range(0, len(cases), 100)]
+    outs = engine.pmap_forked(child_inputs_module, [(c,) for c in chunks], timeout=300)
+    real: List[Any] = []
+    for status, val in outs:
+        if status != "ok":
+            raise common.Infra(f"inputs-module child failed: {status} {str(val)[:300]}")
+        real += val
+    lines, meta = [], []
+    for case, rec in zip(cases, real):
+        inp = {"sdl": case["sdl"], "queries": case["queries"], "scalars": case["scalars"]}
+        if "observer_error" in rec:
+            res.mismatches.append(Mismatch("inputs-module", inp, "observer: " + rec["observer_error"], None))
+            continue
+        roots = [argwire.base_of(d["type"]) for op in case["ops"] for d in op["defs"] if argwire.base_of(d["type"]) in case["inputs"]]
+        for v in rec["variants"]:
+            lines.append({"op": "inputsModule", "schema": rec["ischema"], "scalars": argwire.scalars_cfg_json(case),
+                          "roots": None if v["include_all_inputs"] else roots})
+            meta.append((case, inp, v, roots))
+    if st is None or not st.driver_ok or not lines:
+        return
+    for (case, inp, v, roots), m in zip(meta, common.run_driver(PROP, lines)):
+        inp = dict(inp, include_all_inputs=v["include_all_inputs"])
+        nested = (not v["include_all_inputs"]) and bool(nested_only_scalars(case))
+        res.seen(["inputs-module", inp], nontrivial=bool(case["scalars"]) and bool(case["inputs"]))
+        res.count("inputs-module:" + ("all" if v["include_all_inputs"] else "pruned") + (":scalar-only-in-nested-input" if nested else ""))
+        if "observer_error" in v:
+            res.mismatches.append(Mismatch("inputs-module", inp, "observer: " + v["observer_error"], m))
+            continue
+        if "error" in v or "error" in m:
+            if ("error" in v) != ("error" in m) or not str(v.get("error", "")).endswith(str(m.get("error"))):
+                res.mismatches.append(Mismatch("inputs-module", inp, {"error": v.get("error")}, m))
+            continue
+        # the import list is compared as the set of (module, name) bindings it makes: order and repetitions do not
+        # reach the emitted file (isort / autoflake)
+        def bindings(imps: List[Dict[str, Any]]) -> List[List[str]]:
+            return sorted({(i["module"], n) for i in imps for n in i["names"]})  # type: ignore
+
+        rv = {"classes": v["classes"], "bindings": bindings(v["imports"]), "fixedImports": v["fixed"]}
+        mv = {"classes": m["ok"]["classes"], "bindings": bindings(m["ok"]["imports"]), "fixedImports": FIXED_INPUT_IMPORTS}
+        if not v["include_all_inputs"] and not common.same_json(v["used_inputs"], roots, ordered=True):
+            res.mismatches.append(Mismatch("used-inputs", inp, v["used_inputs"], roots))
+        if not common.same_json(json.loads(json.dumps(rv)), json.loads(json.dumps(mv)), ordered=True):
+            res.mismatches.append(Mismatch("inputs-module", inp, rv, mv))
+        elif v.get("usedScalars") is not None and sorted(set(v["usedScalars"])) != sorted(set(m["ok"]["usedScalars"])):
+            res.mismatches.append(Mismatch("inputs-module", inp, {"usedScalars": v["usedScalars"]}, {"usedScalars": m["ok"]["usedScalars"]}))
+        res.count("inputs-module:scalar-imports", len(m["ok"]["imports"]))
+
+
+# --------------------------------------------------------------------------------------------
 # 3. real packages: result annotations, call logs, the oracle
 # --------------------------------------------------------------------------------------------
 
@@ -385,14 +542,19 @@ def shape_of_op(case: Dict[str, Any], op: Dict[str, Any]) -> Dict[str, Any]:
 
     ok = ["ok", {"k": "plain", "py": "bool", "nn": False}]
     child = {"k": "obj", "fields": [ok] + scal(True), "nn": False}
+    if case.get("fragments") and scal(True):
+        # `child { ...RScalars ok }`: the fragment's fields are those of the base class, validated first
+        child = {"k": "obj", "fields": scal(True) + [ok], "nn": False}
     kids_fields = scal(True) or [ok]
     kids = {"k": "list", "item": {"k": "obj", "fields": kids_fields, "nn": True}, "nn": False}
     r = {"k": "obj", "fields": [ok] + scal(False) + [["child", child], ["kids", kids]], "nn": False}
     return {"k": "obj", "fields": [[op["field"], r]], "nn": True}
 
 
-def inline_classes(classes: Dict[str, List[Dict[str, Any]]], root: str, depth: int = 0) -> Dict[str, Any]:
-    """class IR of a result module -> RAnn of the root class (forward references inlined)"""
+def inline_classes(classes: Dict[str, List[Dict[str, Any]]], root: str, depth: int = 0,
+                   bases: Optional[Dict[str, List[str]]] = None) -> Dict[str, Any]:
+    """class IR of a result module (+ the classes of fragments.py it inherits from) -> RAnn of the root class
+    (forward references inlined; the fields of base classes first, as pydantic orders them)"""
     if depth > 12:
         raise argwire.CanonError("class nesting")
 
@@ -401,14 +563,20 @@ def inline_classes(classes: Dict[str, List[Dict[str, Any]]], root: str, depth: i
             return {"k": "list", "item": conv(ann["item"]), "opt": ann["opt"]}
         l = ann["l"]
         if l["k"] == "fwd":
-            inner = inline_classes(classes, l["cls"], depth + 1)
+            inner = inline_classes(classes, l["cls"], depth + 1, bases)
             inner["opt"] = ann["opt"]
             return inner
         return {"k": "leaf", "l": l, "opt": ann["opt"]}
 
     if root not in classes:
         raise argwire.CanonError("class " + root + " not found")
-    return {"k": "obj", "fields": [[d["alias"] or d["py"], conv(d["ann"])] for d in classes[root]], "opt": False}
+    fields: List[List[Any]] = []
+    for b in (bases or {}).get(root, []):
+        if b in classes:
+            fields += inline_classes(classes, b, depth + 1, bases)["fields"]
+    own = [[d["alias"] or d["py"], conv(d["ann"])] for d in classes[root]]
+    fields = [f for f in fields if f[0] not in {o[0] for o in own}] + own
+    return {"k": "obj", "fields": fields, "opt": False}
 
 
 def expected_parse(case: Dict[str, Any], shape: Dict[str, Any], j: Any) -> List[Any]:
@@ -480,6 +648,10 @@ def judge_call(case: Dict[str, Any], out: Dict[str, Any], call: Dict[str, Any], 
     """The property on one call: (signature, trigger, detail)."""
     fails: List[Tuple[str, Optional[str], str]] = []
     defs = out["defs"][call["op"]]
+    if rec["outcome"] == "build-error" and any(argwire.custom_leaves(v, case, w) for v in call["values"] for w in ("serialize", "parse")
+                                               if not (isinstance(v, dict) and v.get("k") == "unset")):
+        # a generated input class refuses a schema-valid value that carries a custom scalar
+        return [("input-model-refuses-valid-scalar-value", None, rec.get("message", "")[:200])]
     if rec["outcome"] in ("no-method", "build-error") or call.get("omits_required"):
         return fails
     ser, par = split_log(rec.get("log", []))
@@ -535,6 +707,9 @@ def judge_call(case: Dict[str, Any], out: Dict[str, Any], call: Dict[str, Any], 
             fails.append(("value-not-parse-of-raw", None, f"want {json.dumps(want)[:200]} got {json.dumps(rec.get('returned'))[:200]}"))
     elif rec["outcome"] == "exception-after-send":
         fails.append(("response-rejected", None, f"{rec.get('exception')}: {rec.get('message', '')[:200]}"))
+    elif rec["outcome"] == "exception" and "sent" not in rec:
+        # a schema-valid call that dies before anything is transmitted (a serialize function that is not bound, ...)
+        fails.append(("call-raises-before-send", None, f"{rec.get('exception')}: {rec.get('message', '')[:200]}"))
     return fails
 
 
@@ -558,29 +733,122 @@ def names_used(ann: Dict[str, Any]) -> List[str]:
 
 BUILTIN_NAMES = {"str", "int", "float", "bool", "Any", "Upload"}
 
+CASE_KEYS = ("snake", "async", "enums", "scalars", "inputs", "ops")
+CASE_KEYS_OPT = ("extra_config", "loose_methods", "fragments")
+
+
+def case_input(case: Dict[str, Any]) -> Dict[str, Any]:
+    """the structural part of a case: what a replay file / corpus entry carries"""
+    d = {k: case[k] for k in CASE_KEYS}
+    d.update({k: case[k] for k in CASE_KEYS_OPT if case.get(k)})
+    return d
+
+
+ALL_FAMILIES = list(argwire.FAMILIES) + list(argwire.EXTRA_FAMILIES)
+
+
+def is_falsy_leaf(case: Dict[str, Any], spec: Any) -> bool:
+    """a PRESENT custom-scalar value whose Python object is falsy"""
+    if not (isinstance(spec, dict) and spec.get("k") == "custom"):
+        return False
+    fam = argwire.family_of(case, spec["scalar"])
+    if fam["py"] == "cls":
+        return fam.get("cls") == "TZ" and not spec["j"]
+    return fam["py"] in ("str", "any", "int") and not spec["j"] and spec["j"] is not None
+
+
+def falsy_capable(fam: Dict[str, Any]) -> bool:
+    return any(not r for r in fam.get("raws", []))
+
+
+def falsy_positions(case: Dict[str, Any], spec: Any, where: str = "top") -> List[str]:
+    if spec is None or not isinstance(spec, dict):
+        return []
+    if spec.get("k") == "custom":
+        return [where] if is_falsy_leaf(case, spec) else []
+    if spec.get("k") == "list":
+        return [p for x in spec["xs"] for p in falsy_positions(case, x, "item" if where == "top" else where)]
+    if spec.get("k") == "model":
+        return [p for f in spec["fields"] for p in falsy_positions(case, f["v"], "field")]
+    return []
+
+
+def force_falsy(rng: random.Random, case: Dict[str, Any], spec: Any) -> Any:
+    """the same value with every custom-scalar leaf of a falsy-capable family replaced by a falsy raw value"""
+    if spec is None or not isinstance(spec, dict):
+        return spec
+    k = spec.get("k")
+    if k == "custom":
+        fam = argwire.family_of(case, spec["scalar"])
+        falsy = [r for r in fam.get("raws", []) if not r]
+        if falsy:
+            return {"k": "custom", "scalar": spec["scalar"], "j": rng.choice(falsy)}
+        return spec
+    if k == "list":
+        return {"k": "list", "xs": [force_falsy(rng, case, x) for x in spec["xs"]]}
+    if k == "model":
+        return {"k": "model", "cls": spec["cls"], "fields": [dict(f, v=force_falsy(rng, case, f["v"])) for f in spec["fields"]]}
+    return spec
+
+
+def nested_only_scalars(case: Dict[str, Any]) -> List[str]:
+    """custom scalars (with something to import) that occur in an input type of the dependency closure of the
+    operations' variables but in none of the directly named input types"""
+    roots = [argwire.base_of(d["type"]) for op in case["ops"] for d in op["defs"] if argwire.base_of(d["type"]) in case["inputs"]]
+    closure: List[str] = []
+    todo = list(roots)
+    while todo:
+        n = todo.pop()
+        if n in closure:
+            continue
+        closure.append(n)
+        todo += [argwire.base_of(f["type"]) for f in case["inputs"][n] if argwire.base_of(f["type"]) in case["inputs"]]
+
+    def scal(names: List[str]) -> set:
+        return {argwire.base_of(f["type"]) for n in names for f in case["inputs"][n]
+                if argwire.base_of(f["type"]) in case["scalars"] and (argwire.family_of(case, argwire.base_of(f["type"]))["cfg"] or {}).get("type", "").count(".")}
+
+    return sorted(scal(closure) - scal(list(set(roots))))
+
 
 def e2e_cases(ctx: Ctx, n: int, label: str) -> List[Dict[str, Any]]:
     rng = ctx.sub_rng(label)
     cases = []
     for _ in range(n):
-        c = argwire.gen_case(rng, trigger_names=0.0, harmless_names=0.2, want_results=True, n_ops=rng.randint(1, 2))
+        fams = rng.sample(ALL_FAMILIES, rng.randint(1, 4))
+        c = argwire.gen_case(rng, trigger_names=0.0, harmless_names=0.2, want_results=True, n_ops=rng.randint(1, 2), families=fams)
+        # every combination of the two pruning flags (the defaults are True/True)
+        c["extra_config"] = {"include_all_inputs": rng.random() < 0.5, "include_all_enums": rng.random() < 0.5}
+        c["loose_methods"] = True
+        if rng.random() < 0.35:
+            c["fragments"] = True  # the scalar fields of `child` through a fragment spread (class of fragments.py as base)
+        if rng.random() < 0.5:
+            add_deep_chain(rng, c, attach_p=0.85, root_p=0.7)
+        else:
+            argwire.finish_case(c)
         # two variables that process_name maps to one parameter (`response`/`_response`, ...) are C03-F4/C18's
         # region (duplicate argument -> SyntaxError at import) and say nothing about custom scalars: keep the first
-        changed = False
         for op in c["ops"]:
             seen: set = set()
             kept = []
             for d in op["defs"]:
                 key = d["name"].replace("_", "").lower()
                 if key in seen:
-                    changed = True
                     continue
                 seen.add(key)
                 kept.append(d)
             op["defs"] = kept
-        if changed:
-            argwire.finish_case(c)
+        argwire.finish_case(c)
         c["calls"] = c03.make_calls(rng, c, 2)
+        # one more call per operation in which every falsy-capable scalar value IS falsy (present, not None)
+        extra = []
+        for op in c["ops"]:
+            base = next((cl for cl in c["calls"] if cl["op"] == op["name"] and not cl.get("omits_required")), None)
+            if base is not None and any(falsy_capable(argwire.family_of(c, s)) for s in c["scalars"]):
+                gts = [argwire.to_gt(d["type"]) for d in op["defs"]]
+                vals = [force_falsy(rng, c, argwire.gen_value(rng, c, gt, top=True, null_p=0.05)) for gt in gts]
+                extra.append({"op": op["name"], "values": vals, "seed": rng.randrange(1 << 30)})
+        c["calls"] += extra
         for call in c["calls"]:
             call["n_corrupt"] = 0
         cases.append(c)
@@ -595,7 +863,11 @@ def judge_e2e(ctx: Ctx, st: Optional[LeanStatus], res: Result, cases: List[Dict[
     send_meta: List[Any] = []
     for ci, (case, (status, out)) in enumerate(zip(cases, outs)):
         per_case[ci] = []
-        inp_case = {k: case[k] for k in ("snake", "async", "enums", "scalars", "inputs", "ops")}
+        inp_case = case_input(case)
+        flags = case.get("extra_config") or {}
+        res.count(f"e2e:flags:include_all_inputs={flags.get('include_all_inputs', True)},include_all_enums={flags.get('include_all_enums', True)}")
+        if flags.get("include_all_inputs", True) is False and nested_only_scalars(case):
+            res.count("e2e:pruned-inputs:scalar-only-in-nested-input")
         if status != "ok":
             raise common.Infra(f"e2e child failed: {status} {str(out)[:400]}")
         if out.get("gen") != "ok":
@@ -612,8 +884,27 @@ def judge_e2e(ctx: Ctx, st: Optional[LeanStatus], res: Result, cases: List[Dict[
             per_case[ci].append(Failure("import-fails", None, {"case": inp_case, "calls": []}, out.get("import", "")))
             continue
         ops = {o["name"]: o for o in case["ops"]}
+        # text of a method / of the input classes that does not fit the IR: the tie is broken (the oracle goes on)
+        for msg in (out.get("methods") or {}).get("$canon_errors", []):
+            res.mismatches.append(Mismatch("method-ir", {"case": inp_case, "calls": []}, "canon: " + msg, "a method of the form the model emits"))
+        if "inputs_canon_error" in out:
+            res.mismatches.append(Mismatch("input-class-ir", {"case": inp_case, "calls": []}, "canon: " + out["inputs_canon_error"],
+                                           "input classes of the form the model emits"))
+        # client.py binds every name its signatures and `variables` dicts use
+        cbound = {n for i in out.get("client_imports", []) for n in i["names"]}
+        for oname, ir in (out.get("methods") or {}).items():
+            if oname == "$canon_errors" or ir.get("loose"):
+                continue
+            used = [n for a in ir["args"] for n in names_used(a["ann"])] + [e["fn"] for _, e in ir["dict"] if e["k"] == "call"]
+            for n in used:
+                if n and n not in cbound and n not in BUILTIN_NAMES and "." not in n:
+                    per_case[ci].append(Failure("name-not-imported", None, {"case": inp_case, "calls": []}, f"client.{ir['name']}: {n}"))
         # imports cover the names the annotations use, module by module
-        for mod, info in list(out.get("result_modules", {}).items()) + [("input_types", {"classes": out.get("inputs") or {}, "imports": out.get("inputs_imports", [])})]:
+        frag = out.get("fragments_module")
+        if frag is not None:
+            res.count("e2e:fragments-module")
+        for mod, info in list(out.get("result_modules", {}).items()) + ([("fragments", frag)] if frag is not None else []) \
+                + [("input_types", {"classes": out.get("inputs") or {}, "imports": out.get("inputs_imports", [])})]:
             if "canon_error" in info:
                 res.mismatches.append(Mismatch("result-annotation", {"case": inp_case, "module": mod}, "canon: " + info["canon_error"], None))
                 continue
@@ -629,7 +920,12 @@ def judge_e2e(ctx: Ctx, st: Optional[LeanStatus], res: Result, cases: List[Dict[
             if mod is None:
                 continue
             try:
-                real_ann = inline_classes(out["result_modules"][mod]["classes"], oname)
+                cls = dict(out["result_modules"][mod]["classes"])
+                bases = dict(out["result_modules"][mod].get("bases") or {})
+                if frag is not None and "classes" in frag:
+                    cls.update({k: v for k, v in frag["classes"].items() if k not in cls})
+                    bases.update({k: v for k, v in (frag.get("bases") or {}).items() if k not in bases})
+                real_ann = inline_classes(cls, oname, 0, bases)
             except argwire.CanonError as e:
                 res.mismatches.append(Mismatch("result-annotation", {"case": inp_case, "op": oname}, "canon: " + str(e), None))
                 continue
@@ -645,8 +941,16 @@ def judge_e2e(ctx: Ctx, st: Optional[LeanStatus], res: Result, cases: List[Dict[
             for s in case["scalars"]:
                 res.count("e2e:family:" + (case["scalars"][s] if isinstance(case["scalars"][s], str) else "inline"))
             res.seen([inp_case, call["op"], call["values"], call.get("seed")], nontrivial=bool(case["scalars"]))
-            for sig, trig, detail in judge_call(case, out, call, rec, op):
+            for d, v in zip(out["defs"][call["op"]], call["values"]):
+                for pos in falsy_positions(case, v):
+                    nullable = d["type"][0] != "nonnull"
+                    res.count(f"e2e:falsy-present-scalar:{pos}" + (":nullable-variable" if pos == "top" and nullable else ""))
+                    if pos == "top" and nullable and argwire.family_of(case, argwire.base_of(d["type"]))["serialize"]:
+                        res.count("e2e:falsy-present-scalar:top:nullable-variable:with-serialize")
+            call_fails = judge_call(case, out, call, rec, op)
+            for sig, trig, detail in call_fails:
                 per_case[ci].append(Failure(sig, trig, {"case": inp_case, "calls": [call]}, f"op {call['op']} {detail}"))
+            call_trig = next((t for _, t, _ in call_fails if t), None)  # the finding region THIS call lies in, if any
             # model: parse occurrences on the real response
             if rec["outcome"] == "ok" and "response" in rec:
                 lines.append({"op": "resultAnn", "scalars": argwire.scalars_cfg_json(case), "shape": shape_of_op(case, op),
@@ -655,7 +959,7 @@ def judge_e2e(ctx: Ctx, st: Optional[LeanStatus], res: Result, cases: List[Dict[
             ir = out.get("methods", {}).get(call["op"])
             if ir is not None and out.get("inputs") is not None and not call.get("omits_required"):
                 send_lines.append(c03.send_line(case, out, call, rec.get("sent_query") or ""))
-                send_meta.append((ci, call, rec, ser))
+                send_meta.append((ci, call, rec, ser, call_trig))
     if st is not None and st.driver_ok:
         if lines:
             for (kind, ci, x, y), m in zip(meta, common.run_driver(PROP, lines)):
@@ -668,14 +972,16 @@ def judge_e2e(ctx: Ctx, st: Optional[LeanStatus], res: Result, cases: List[Dict[
                     if not m["conforms"] or not common.same_json(y, mv, ordered=True) or not common.same_json(m["calls"], m["occurrences"]):
                         res.mismatches.append(Mismatch("parse-log", {"case": {k: case[k] for k in ("scalars", "ops")}, "calls": [x]}, y, {"conforms": m["conforms"], "calls": mv}))
         if send_lines:
-            for (ci, call, rec, ser), m in zip(send_meta, common.run_driver("C03", send_lines)):
+            for (ci, call, rec, ser, trig), m in zip(send_meta, common.run_driver("C03", send_lines)):
                 case = cases[ci]
-                defs = outs[ci][1]["defs"][call["op"]]
-                trig = next((f.trigger for f in per_case[ci] if f.trigger), None)
                 if "ok" in m and "sent" in rec:
                     if not common.same_json(ser, m["ok"]["calls"]):
-                        res.mismatches.append(Mismatch("serialize-log", {"case": {k: case[k] for k in ("snake", "async", "enums", "scalars", "inputs", "ops")}, "calls": [call]},
+                        res.mismatches.append(Mismatch("serialize-log", {"case": case_input(case), "calls": [call]},
                                                        ser, m["ok"]["calls"], trig))
+                elif "ok" in m and rec.get("outcome") == "exception":
+                    # the model transmits a request, the real method raised before anything was sent
+                    res.mismatches.append(Mismatch("serialize-log", {"case": case_input(case), "calls": [call]},
+                                                   {"exception": rec.get("exception"), "message": rec.get("message", "")[:200]}, m["ok"]["calls"], trig))
     return per_case
 
 
@@ -733,6 +1039,8 @@ def replay_witnesses(ctx: Ctx, st: Optional[LeanStatus], res: Result) -> None:
 def run(ctx: Ctx, st: Optional[LeanStatus]) -> Result:
     res = Result()
     res.rule = ("imports: one evaluation = one scalar configuration through the real ScalarData/generate_scalar_imports and the model; "
+                "inputs-module: one evaluation = one (schema, operations, configuration, include_all_inputs) through the real "
+                "ArgumentsGenerator + InputTypesGenerator.generate and Model.InputImports.generate; "
                 "pydantic: one evaluation = one (annotation, value) through the real pydantic with instrumented functions and Spec.PydLog; "
                 "e2e: one evaluation = one call of a real generated method of a package with instrumented custom scalars, "
                 "non-trivial when the schema has at least one custom scalar; distinct = distinct canonical inputs")
@@ -746,8 +1054,9 @@ def run(ctx: Ctx, st: Optional[LeanStatus]) -> Result:
     ctx.log("corpus replayed")
     run_imports(ctx, st, res)
     run_pydantic(ctx, st, res)
-    ctx.log(f"imports + pydantic correspondence done ({res.evaluations} evaluations, {len(res.mismatches)} mismatches)")
-    run_e2e(ctx, st, res, e2e_cases(ctx, ctx.budget(120, 1000), "e2e"))
+    run_inputs_module(ctx, st, res)
+    ctx.log(f"imports + pydantic + inputs-module correspondence done ({res.evaluations} evaluations, {len(res.mismatches)} mismatches)")
+    run_e2e(ctx, st, res, e2e_cases(ctx, ctx.budget(400, 3000), "e2e"))
     ctx.log(f"end-to-end done ({res.evaluations} evaluations, {len(res.mismatches)} mismatches, {len(res.failures)} oracle failures)")
     res.oracle_only += [
         "import of the generated modules (autoflake removing unused scalar imports, isort, black): observed on real packages",
